@@ -203,3 +203,49 @@ pub fn const_parse(req: &Value) -> Value {
         Err(e) => json!({"err": crate::syn::err_json(&e)}),
     }
 }
+
+fn bits_of(req: &Value) -> f64 {
+    f64::from_bits(req["bits"].as_str().unwrap().parse::<u64>().unwrap())
+}
+
+/// {fn: fixed|exponent|general|general_repr, prec, bits, upper, alt} -> {"out": text}
+pub fn float_fmt(req: &Value) -> Value {
+    use rustpython_literal::float;
+    use rustpython_literal::format::Case;
+    let x = bits_of(req);
+    let prec = req["prec"].as_u64().unwrap() as usize;
+    let case = if req["upper"].as_bool().unwrap_or(false) { Case::Upper } else { Case::Lower };
+    let alt = req["alt"].as_bool().unwrap_or(false);
+    let out = match req["fn"].as_str().unwrap() {
+        "fixed" => float::format_fixed(prec, x, case, alt),
+        "exponent" => float::format_exponent(prec, x, case, alt),
+        "general" => float::format_general(prec, x, case, alt, false),
+        _ => float::format_general(prec, x, case, alt, true),
+    };
+    json!({"out": out})
+}
+
+/// {bits} -> repr text, its parse-back, hex text, its parse-back
+pub fn float_repr(req: &Value) -> Value {
+    use rustpython_literal::float;
+    let x = bits_of(req);
+    let s = float::to_string(x);
+    let back = float::parse_str(&s).map(|v| v.to_bits().to_string());
+    let hex = float::to_hex(x);
+    let hback = float::from_hex(&hex).map(|v| v.to_bits().to_string());
+    json!({"repr": s, "back": back, "hex": hex, "hex_back": hback})
+}
+
+/// {s, hex:bool, bytes:bool} -> {"bits": "..."} | {"bits": null}
+pub fn float_parse(req: &Value) -> Value {
+    use rustpython_literal::float;
+    let s = req["s"].as_str().unwrap();
+    let r = if req["hex"].as_bool().unwrap_or(false) {
+        float::from_hex(s)
+    } else if req["bytes"].as_bool().unwrap_or(false) {
+        float::parse_bytes(s.as_bytes())
+    } else {
+        float::parse_str(s)
+    };
+    json!({"bits": r.map(|v| v.to_bits().to_string())})
+}
